@@ -30,6 +30,7 @@ func init() {
 			{"C04/default", "verification defaults to true and is written only from configuration", c04Default},
 			{"C04/deny-path", "refusal by the host/session check: access-denied status, no dial, tunnel ends", func(c *Ctx) { c03DenyPathAs(c, "C04/deny-path") }},
 			{"C04/identity-source", "the identity a request's handlers see is the one built for that request: context identities are installed only by identity.AddToRequestCtx, from this request's own identity", c04IdentitySource},
+			{"C04/config-tags", "the configuration fields this property depends on are read from the documented keys: koanf tag = lower-cased field name", func(c *Ctx) { configTags(c, "C04/config-tags", map[string][]string{"Configuration": {"Security"}, "SecurityConfig": {"VerifyClientIp"}}) }},
 		},
 	})
 }
